@@ -594,8 +594,9 @@ func realRun(k *caseT, withMW bool, nw []int) respT {
 		r.Use(wrapMW(k.Wrap))
 	}
 	done := make(chan struct{})
+	var once sync.Once
 	hf := func(c *router.Context) {
-		defer close(done) // res is read only after the handler has returned (the client may see the end of a Content-Length body earlier)
+		defer once.Do(func() { close(done) }) // res is read only after the handler has returned (the client may see the end of a Content-Length body earlier)
 		runProg(c, k.Prog, res, nil, nw)
 	}
 	if k.Head {
@@ -603,7 +604,12 @@ func realRun(k *caseT, withMW bool, nw []int) respT {
 	} else {
 		r.GET(k.Path, hf)
 	}
-	var h http.Handler = r
+	// a chain that answers without ever reaching the handler (a middleware that rejects the request) is an observation
+	// like any other: the exchange is over when the router returns
+	var h http.Handler = http.HandlerFunc(func(w http.ResponseWriter, req *http.Request) {
+		defer once.Do(func() { close(done) })
+		r.ServeHTTP(w, req)
+	})
 	curHandler.Store(&h)
 	return fetch(k, res, done, nw)
 }
@@ -677,16 +683,23 @@ func overlapRun(group []caseT, nws [][]int, seq bool) []respT {
 	}
 	res := make([]*runRes, len(group))
 	done := make([]chan struct{}, len(group))
+	onces := make([]sync.Once, len(group))
+	byPath := map[string]int{}
 	for i := range group {
 		i := i
 		res[i] = &runRes{}
 		done[i] = make(chan struct{})
+		if _, dup := byPath[group[i].Path]; dup {
+			byPath[group[i].Path] = -1
+		} else {
+			byPath[group[i].Path] = i
+		}
 		reg := r.GET
 		if group[i].Head {
 			reg = r.HEAD
 		}
 		reg(group[i].Path, func(c *router.Context) {
-			defer close(done[i])
+			defer onces[i].Do(func() { close(done[i]) })
 			if t == nil {
 				runProg(c, group[i].Prog, res[i], nil, nws[i])
 				return
@@ -695,7 +708,19 @@ func overlapRun(group []caseT, nws [][]int, seq bool) []respT {
 			runProg(c, group[i].Prog, res[i], turnHook{t, i}, nws[i])
 		})
 	}
-	var h http.Handler = r
+	// a member whose handler is never reached (the chain answered by itself) has finished when the router returns:
+	// it gives up its turn and its exchange is over
+	var h http.Handler = http.HandlerFunc(func(w http.ResponseWriter, req *http.Request) {
+		defer func() {
+			if i, ok := byPath[req.URL.Path]; ok && i >= 0 {
+				if t != nil {
+					t.finish(i)
+				}
+				onces[i].Do(func() { close(done[i]) })
+			}
+		}()
+		r.ServeHTTP(w, req)
+	})
 	curHandler.Store(&h)
 	out := make([]respT, len(group))
 	if seq {
@@ -731,7 +756,10 @@ func fetch(k *caseT, res *runRes, done chan struct{}, nw []int) respT {
 	select {
 	case <-done:
 	case <-time.After(15 * time.Second):
-		panic("handler did not return")
+		if resp != nil {
+			resp.Body.Close()
+		}
+		return respT{Kind: "E", PanicV: "handler did not return"}
 	}
 	if res.Panic {
 		if resp != nil {
